@@ -827,6 +827,9 @@ class ObjMixin:
         cached = getattr(fi, 'cached', False)
         prev_func = self.hooks.get('cur_func')
         self.hooks['cur_func'] = fi.fq
+        if cached:
+            self.hooks.setdefault('memoised_stack', []).append(fi.fq)
+            self.ctx.memoised_entered.add(fi.fq)
         try:
             fr = Frame(fi.module, {}, closure=fi.closure, func=fi)
             self.bind_args(fi, args, kwargs, fr)
@@ -840,6 +843,8 @@ class ObjMixin:
         finally:
             self.depth -= 1
             self.hooks['cur_func'] = prev_func
+            if cached:
+                self.hooks['memoised_stack'].pop()
 
     # ---------------------------------------------------------------------- classes
     def instantiate(self, cls: ClassInfo, args, kwargs):
